@@ -135,7 +135,8 @@ def collect_fields_untyped(
             raise ExpansionBudgetExhausted()
         _budget -= 1
 
-    _seen_fragments = _seen_fragments or set()
+    if _seen_fragments is None:
+        _seen_fragments = set()
     # How @skip / @include are evaluated, defaults to the strict evaluation
     # which raises CoercionError on unusable variables.
     skip = skip_selection or _skip_selection
